@@ -460,7 +460,7 @@ def case_piston(ctx, nr):
 
 def build_cases(tier):
     cases = []
-    F = [(2, 3, 2), (2, 3, 3)] if tier == "quick" else [(2, 3, 2), (2, 3, 3), (2, 4, 4), (3, 3, 3)]
+    F = [(2, 3, 2), (2, 3, 3)] if tier == "quick" else [(2, 3, 2), (2, 3, 3), (2, 4, 4), (2, 4, 3)]
     for nr, nt, nf in F:
         cases.append(("fcom/nr=%d/orders=%d/nfunc=%d" % (nr, nt, nf), case_fcom, dict(nr=nr, nt=nt, nfunc=nf)))
     for nord, npp in ([(3, 8), (5, 12)] if tier == "quick" else [(3, 8), (5, 12), (7, 16), (9, 25), (11, 40)]):
